@@ -65,6 +65,83 @@ def r1_guarded(rep, g):
               'check_recursion no longer runs the wrapped parser')
 
 
+def mentions_depth(g, t):
+    """[(fn, number of check_recursion wrappers above the mention)] for a term"""
+    out = []
+    stack = [(t, 0)]
+    while stack:
+        x, dep = stack.pop()
+        if not isinstance(x, dict) or 'op' not in x:
+            continue
+        op = x['op']
+        if op in ('ref', 'call'):
+            out.append((x['fn'], dep))
+        if op in ('seq', 'alt'):
+            stack.extend((y, dep) for y in x['items'])
+        elif op in ('opt', 'peek', 'not', 'map', 'rep'):
+            stack.append((x['p'], dep))
+        elif op == 'checkrec':
+            stack.append((x['p'], dep + 1))
+        elif op == 'sep':
+            stack.extend([(x['p'], dep), (x['sep'], dep)])
+        elif op == 'and_then':
+            stack.extend([(x['p'], dep), (x['q'], dep)])
+        elif op == 'dispatch':
+            if not x.get('bound'):
+                stack.append((x['scrut'], dep))
+            stack.extend((a['p'], dep) for a in x['arms'])
+        if op == 'call':
+            stack.extend((a, dep) for a in x['args'] if a is not None)
+    return out
+
+
+def simple_cycles(edges, limit=200):
+    """simple cycles of a small digraph {u: {v: ..}}, each reported once (rotated to its least node)"""
+    nodes = sorted(edges)
+    out = []
+    for start in nodes:
+        path = [start]
+
+        def dfs(u):
+            if len(out) >= limit:
+                return
+            for v in sorted(edges.get(u, ())):
+                if v == start:
+                    out.append(list(path))
+                elif v > start and v not in path:
+                    path.append(v)
+                    dfs(v)
+                    path.pop()
+        dfs(start)
+    return out
+
+
+def r1b_charged_once(rep, g):
+    R = rep.rule('C05/R1b', 'every recursive cycle of the parser is charged to the depth counter exactly once: along each simple cycle of the mention '
+                 'graph exactly one edge is wrapped in check_recursion (twice would halve the accepted depth of that construct)', floor=2)
+    edges = {}
+    for d, t in g.terms.items():
+        if t is None:
+            continue
+        for f, dep in mentions_depth(g, t):
+            if f in g.terms:
+                edges.setdefault(d, {}).setdefault(f, set()).add(dep)
+    cycles = simple_cycles(edges)
+    if not cycles:
+        rep.incomplete(R, 'cycles', 'no recursive cycle found in the parser: the mention graph is broken')
+        return
+    for cyc in cycles:
+        totals = {0}
+        for i, u in enumerate(cyc):
+            v = cyc[(i + 1) % len(cyc)]
+            totals = {a + b for a in totals for b in edges[u][v]}
+        name = ' -> '.join(short(x) for x in cyc + [cyc[0]])
+        loc = g.facts.loc(g.facts.body(cyc[0]))
+        rep.check(R, name, totals == {1}, 'one check_recursion on the cycle',
+                  f'the cycle {name} passes through check_recursion {sorted(totals)} times: each level of this construct is charged '
+                  f'{"more than once, so documents nested below the limit are rejected" if max(totals) > 1 else "not at all"}', loc)
+
+
 def r2_pairing(rep, facts):
     R = rep.rule('C05/R2', 'check_recursion: enter precedes the inner parser, and every path from the inner parser to the return passes '
                  'through exit exactly once (also when the inner parser fails)', floor=4)
@@ -184,6 +261,7 @@ def rules(rep, facts):
         return
     g = pm.model(facts)
     r1_guarded(rep, g)
+    r1b_charged_once(rep, g)
     if 'unbounded' in feats:
         rep.notes.append(f'configuration {facts.config}: the counter is compiled out by design (documented exception), R2-R4 skipped.')
         return
